@@ -150,8 +150,10 @@ static void vf_insert(int id, int key, int hinted)
     vf_pool[id].key = key;
     if (hinted) {
         const void * par = NULL;
-        if (T_FIND(ELEM(id), &par) == NULL && par != NULL) {
-            /* the hint is only meaningful when no equal element exists; hand back the known address */
+        (void)T_FIND(ELEM(id), &par);
+        if (par != NULL) {
+            /* the parent reported by find (whether or not an equal element was found) is a valid
+             * hint; hand back the address we know rather than the library-derived pointer */
             int k;
             for (k = 0; k < VF_POOL; k++) {
                 if (par == ELEM(k)) { hint = ELEM(k); }
